@@ -807,7 +807,7 @@ def run(ctx, res):
                                                       fraction=split["fraction"] if split["mode"] == "stub" else
                                                       (stub_fraction(sum(prep.sel), len(prep.sel)) if split["fn"] == "random" else split["fraction"])))
                     res.count("class.object-reuse")
-                    ids_of = lambda x: ([int(i) for i in x.sample_ids], [[int(i) for i in r] for r in np.asarray(x.treatment_ids).reshape(int(x.size), -1)], canon_maps(x))
+                    ids_of = lambda x: ([int(i) for i in x.sample_ids], [[int(i) for i in r] for r in np.asarray(x.treatment_ids).tolist()] if int(x.size) else [], canon_maps(x))
                     if split["fn"] == "random" and (ids_of(k2), ids_of(t2)) != (ids_of(prep.keep), ids_of(prep.test)):
                         res.fail("splitting the same screen object a second time (same selection) gives other halves", dict(base, side="train", ops=[]),
                                  {"second": [show_stage(k2)[:300], show_stage(t2)[:300]]},
